@@ -153,6 +153,29 @@ type Cfg struct {
 	EvictFail     []int  `json:"evictFail"` // likewise for Evict calls
 	FullHier      int    `json:"fullHier"`
 	Actions       string `json:"actions"` // optional override
+	// node pool of the scheduler (conf.SchedulingNodePoolParams): PoolKey "" = no pool; PoolVal "" = nodes /
+	// pod groups / queues WITHOUT the label key; otherwise those labelled PoolKey=PoolVal
+	PoolKey string `json:"poolKey"`
+	PoolVal string `json:"poolVal"`
+}
+
+// InPool reports whether the node belongs to the scheduler's node pool.
+func (sc *Scenario) InPool(n *Node) bool {
+	if sc.Cfg.PoolKey == "" {
+		return true
+	}
+	v, ok := n.Labels[sc.Cfg.PoolKey]
+	if sc.Cfg.PoolVal == "" {
+		return !ok
+	}
+	return ok && v == sc.Cfg.PoolVal
+}
+
+func (sc *Scenario) poolLabels() map[string]string {
+	if sc.Cfg.PoolKey == "" || sc.Cfg.PoolVal == "" {
+		return nil
+	}
+	return map[string]string{sc.Cfg.PoolKey: sc.Cfg.PoolVal}
 }
 
 type Scenario struct {
@@ -299,7 +322,7 @@ func BuildQueue(sc *Scenario, i int) *enginev2.Queue {
 	prio := q.Prio
 	w := float64(q.GW)
 	obj := &enginev2.Queue{
-		ObjectMeta: metav1.ObjectMeta{Name: q.Name, UID: types.UID("queue-" + q.Name),
+		ObjectMeta: metav1.ObjectMeta{Name: q.Name, UID: types.UID("queue-" + q.Name), Labels: sc.poolLabels(),
 			CreationTimestamp: metav1.Time{Time: Epoch.Add(time.Duration(i) * time.Second)}},
 		Spec: enginev2.QueueSpec{
 			ParentQueue: parent,
@@ -342,7 +365,7 @@ func BuildPodGroup(sc *Scenario, j int, now time.Time) *enginev2alpha2.PodGroup 
 	}
 	pg := &enginev2alpha2.PodGroup{
 		ObjectMeta: metav1.ObjectMeta{
-			Name: job.Name, Namespace: Namespace, UID: types.UID("pg-" + job.Name),
+			Name: job.Name, Namespace: Namespace, UID: types.UID("pg-" + job.Name), Labels: sc.poolLabels(),
 			CreationTimestamp: metav1.Time{Time: now.Add(-time.Duration(job.Age) * time.Second)},
 			Annotations:       map[string]string{jobIndexAnnot: strconv.Itoa(j + 1)},
 		},
